@@ -245,9 +245,11 @@ structure St where
   uses : List UseRec := []
   /-- the descriptor is not one the stream produces (unbalanced `end`, a second local of the same name in one block) -/
   bad : Option String := none
-  /-- a declaration on which the real front end panics (`assert_eq!(symbols.len(), 1)` of `end_enum`: an enum value
-      whose name has another symbol — a namespace — in the scope that contains the enum) -/
-  panic : Option String := none
+  /-- the first declaration the front end refuses (`register_enum_value`: `Err(ValueAlreadyDefined)`), with the number
+      of uses in front of it: the compilation ends there.  Until fix fe5dd8d a value named like a namespace of the scope
+      that contains the enum passed `register_enum_value` and ran into `assert_eq!(symbols.len(), 1)` of `end_enum`
+      (this field was `panic`); the assertion is gone and the name is refused. -/
+  refused : Option (Nat × String) := none
 deriving Repr, Inhabited
 
 def pushSym (n : String) (s : Sym) : List (String × List Sym) → List (String × List Sym)
@@ -278,6 +280,43 @@ def registerVals (T : Table) (parent enumScope : Nat) : List String → Nat → 
   | [], _ => T
   | v :: r, id => registerVals (addSym (addSym T enumScope v (.val id)) parent v (.val id)) parent enumScope r (id + 1)
 
+def isScopeSym : Sym → Bool
+  | .scope _ => true
+  | _ => false
+
+/-- the checks of `register_enum_value` in front of the insertion of the value `v` (`some why` = `Err(ValueAlreadyDefined)`;
+    the outer `none` = a scope index that does not exist):
+
+    1. the enum scope (`current_scope`) — `find_identifier_in_scope` gives `EnumValueUntyped`: a value of this enum;
+    2. the scope that contains the enum — `find_identifier_in_scope` gives `Local` / `Global` / `ConstantBufferMember` /
+       `EnumValue` / `Type` / `Function`;
+    3. (fix fe5dd8d) the symbols of that name in the scope that contains the enum have a `ScopeSymbol::Namespace`.
+       `Sym.scope` stands for `Namespace` and `EnumScope` alike; an `EnumScope` symbol is inserted together with the
+       `Type` symbol of the enum (`begin_enum`), which check 2 refuses before, so the two readings agree on every table
+       the machine builds. -/
+def enumValueRefused (T : Table) (parent enumScope : Nat) (v : String) : Option (Option String) :=
+  match T[enumScope]?, T[parent]? with
+  | some es, some ps =>
+    match findInScope es v with
+    | some (.val _) => some (some "value already defined in this enum")
+    | _ =>
+      match findInScope ps v with
+      | some (.loc _) => some (some "value already defined: local")
+      | some (.val _) => some (some "value already defined: global / enum value")
+      | some (.ty _) => some (some "value already defined: type")
+      | some (.fns _) => some (some "value already defined: function")
+      | _ => if (ps.symsOf v).any isScopeSym then some (some "value already defined: namespace") else some none
+  | _, _ => none
+
+/-- the values of an enum are registered one after the other (`registerVals`); the first refusal ends the compilation -/
+def firstRefusal (T : Table) (parent enumScope : Nat) : List String → Nat → Option (Option String)
+  | [], _ => some none
+  | v :: r, id =>
+    match enumValueRefused T parent enumScope v with
+    | none => none
+    | some (some why) => some (some why)
+    | some none => firstRefusal (addSym (addSym T enumScope v (.val id)) parent v (.val id)) parent enumScope r (id + 1)
+
 def exec (st : St) : Instr → St
   | .ns n =>
     match firstScope ((st.T[st.cur]?.map (·.symsOf n)).getD []) with
@@ -304,12 +343,15 @@ def exec (st : St) : Instr → St
     { st with T := T, cur := sIdx + 1, nextId := st.nextId + 1, kinds := st.kinds ++ [.struct], frames := .st :: st.frames }
   | .en n vals =>
     let idx := st.T.length
-    let T := addSym (addSym (st.T ++ [{ parent := some st.cur }]) st.cur n (.scope idx)) st.cur n (.ty st.nextId)
-    let T := registerVals T st.cur idx vals (st.nextId + 1)
-    let promoted := vals.all fun v => ((T[st.cur]?.map (·.symsOf v)).getD []).length == 1
-    { st with T := T, nextId := st.nextId + 1 + vals.length,
-              kinds := st.kinds ++ (.enum :: vals.map fun _ => .enumVal),
-              panic := if promoted then st.panic else st.panic.orElse fun _ => some "assertion `left == right` failed (end_enum)" }
+    let T0 := addSym (addSym (st.T ++ [{ parent := some st.cur }]) st.cur n (.scope idx)) st.cur n (.ty st.nextId)
+    let T := registerVals T0 st.cur idx vals (st.nextId + 1)
+    -- `end_enum` promotes the `EnumValueUntyped` symbols of the parent scope whatever else has the name (no assertion)
+    match firstRefusal T0 st.cur idx vals (st.nextId + 1) with
+    | none => { st with bad := some "no current scope" }
+    | some r =>
+      { st with T := T, nextId := st.nextId + 1 + vals.length,
+                kinds := st.kinds ++ (.enum :: vals.map fun _ => .enumVal),
+                refused := st.refused.orElse fun _ => r.map fun why => (st.uses.length, why) }
   | .td n p =>
     let r := find st.T st.cur p
     let T := match r with
@@ -537,6 +579,15 @@ def verdict (st : St) : Verdict :=
         if kindOk st.kinds u.kind res then go r (if u.kind = .td then acc else showRes res :: acc) else .confusion
   go st.uses []
 
+/-- the verdict of a compilation: a refused declaration ends it, so only the uses in front of it are looked up -/
+def verdictOf (st : St) : Verdict :=
+  match st.refused with
+  | none => verdict st
+  | some (n, _) =>
+    match verdict { st with uses := st.uses.take n } with
+    | .resolved _ => .reject
+    | v => v
+
 def showUses (xs : List String) : String :=
   ",".intercalate (xs.zipIdx.map fun (s, i) => "u" ++ toString i ++ "=" ++ s)
 
@@ -547,8 +598,7 @@ def predict (desc printed : String) : String :=
   | some is =>
     let s1 := run is
     if s1.bad.isSome then "unsupported:descriptor" else
-    if s1.panic.isSome then "g1:panic" else
-    match verdict s1 with
+    match verdictOf s1 with
     | .panic _ => "g1:panic"
     | .reject => "g1:reject"
     | .confusion => "unsupported:kind"
@@ -559,8 +609,7 @@ def predict (desc printed : String) : String :=
       | .ok is2 =>
         let s2 := run is2
         if s2.bad.isSome then "unsupported:exported descriptor" else
-        if s2.panic.isSome then "g1:" ++ showUses xs ++ " g2:panic" else
-        match verdict s2 with
+        match verdictOf s2 with
         | .panic _ => "g1:" ++ showUses xs ++ " g2:panic"
         | .reject => "g1:" ++ showUses xs ++ " g2:reject"
         | .confusion => "unsupported:kind in the second generation"
@@ -588,5 +637,21 @@ def findInScopeArms : List (String × String) :=
   [("Function", "gather"), ("ConstantBuffer", "skip"), ("ConstantBufferMember", "return"), ("GlobalVariable", "return"),
    ("EnumValueUntyped", "return"), ("EnumValue", "return"), ("Type", "skip"), ("TemplateType", "return"),
    ("TemplateValue", "return"), ("Constant", "return"), ("Namespace", "skip"), ("EnumScope", "skip")]
+
+/-- `register_enum_value`: (what is looked at, what is found, what happens) in the order of the checks — what
+    `enumValueRefused` mirrors.  The two `panic` rows are the assertions of the typed / untyped bookkeeping (a typed value
+    of the enum being declared, an untyped value in the scope that contains it without one in the enum scope): `Sym.val`
+    does not tell typed from untyped and neither row is reachable (the enum scope holds the untyped values of this enum
+    only, and each of them is inserted into both scopes, so the first row comes first).  The last row is fix fe5dd8d. -/
+def enumValueChecks : List (String × String × String) :=
+  [("enum-scope", "EnumValueUntyped", "refuse"), ("enum-scope", "EnumValue", "panic"),
+   ("parent-scope", "Local", "refuse"), ("parent-scope", "Global", "refuse"), ("parent-scope", "ConstantBufferMember", "refuse"),
+   ("parent-scope", "EnumValue", "refuse"), ("parent-scope", "Type", "refuse"), ("parent-scope", "Function", "refuse"),
+   ("parent-scope", "EnumValueUntyped", "panic"), ("parent-symbols", "Namespace", "refuse")]
+
+/-- `end_enum`: the promotion loop — no assertion about the other symbols of the name (until fix fe5dd8d:
+    `assert_eq!(symbols.len(), 1)`, the panic of `namespace A {} enum E { A };`) -/
+def endEnumPromotion : String :=
+  "for (name, _) in &enum_values { let symbols = self.scopes[parent_scope].symbols.get_mut(name).unwrap(); for symbol in symbols { if let ScopeSymbol::EnumValueUntyped(id) = symbol { *symbol = ScopeSymbol::EnumValue(*id); replacements += 1; } } }"
 
 end RsslVerif.Model.FixpointNames
